@@ -7,7 +7,7 @@ from check import standard_run, generic_replay
 
 MODULE = "TraceRegex"
 CHARSETS = [["a", "b", " "], ["a", "é", " "], ["x", "ü", "€"], ["a", "b", "ñ"], ["é", "ü", "ö"], ["a", "A", "ß"],
-            ["—", "、", "a"], ["€", "、", "—"]]          # 3-byte characters with different lead and equal continuation bytes
+            ["—", "、", "a"], ["€", "、", "—"], ["ß", "S", "s"], ["a", "ß", "S"], ["€", "ア", "a"]]          # 3-byte characters with different lead and equal continuation bytes
 
 
 def feat(LG):
@@ -30,8 +30,11 @@ def generate(rng, tier, shard, nshards):
         LG = rops.rand_lark(rng, cs)
         ft = feat(LG) + ("+multibyte" if any(len(c.encode()) > 1 for c in cs) else "")
         rec = rng.choice(["left", "right"])
-        yield rops.event("lark", {"LG": LG, "cs": cs, "L": 3, "recursion": rec}, site=f"char_cfg[{rec}]", feat=ft, timeout=120)
-        yield rops.event("larkbytes", {"LG": LG, "cs": cs, "L": 3 if tier == "quick" else 4}, site="byte_cfg", feat=ft, timeout=240)
+        of = i % 2 == 1
+        yield rops.event("lark", {"LG": LG, "cs": cs, "L": 3, "recursion": rec, "other_first": of}, site=f"char_cfg[{rec}]",
+                         feat=ft + ("+same-object" if of else ""), timeout=120)
+        yield rops.event("larkbytes", {"LG": LG, "cs": cs, "L": 3 if tier == "quick" else 4, "other_first": not of}, site="byte_cfg",
+                         feat=ft + ("+same-object" if not of else ""), timeout=240)
         if i % 2 == 0:
             texts = [list(p) for k in range(3) for p in itertools.product(cs, repeat=k)]
             rng.shuffle(texts)
